@@ -419,39 +419,53 @@ func checkAuth(c authCase) []vf.Finding {
 	for _, p := range nlmp.VerifyNTLMv2(nt, user, domain, c.ServerChallenge, a.NT.Data, nil) {
 		fs = append(fs, vf.F("ntlm.CreateAuthenticateMessage", "v2-nt-"+kindOf(p), "user %q domain %q (as carried in the message): %s", user, domain, p))
 	}
-	// the blob must carry the server's target info
+	// the blob must carry the server's target info: the challenge's pairs, values equal, in their order; a
+	// client may add pairs of its own (MS-NLMP 3.1.5.1.2: channel bindings, target name, flags), so the
+	// challenge's list is looked for as a sub-sequence. That the blob's list is well-formed is VerifyNTLMv2's.
 	if len(a.NT.Data) >= 44 {
 		got, _, err := nlmp.ParseAvPairs(a.NT.Data[44:])
 		if err == nil {
-			if len(got) != len(pairs) {
-				fs = append(fs, vf.F("ntlm.CreateAuthenticateMessage", "v2-blob-target-info-differs", "%d pairs in blob, %d in challenge", len(got), len(pairs)))
-			} else {
-				for i := range got {
-					if got[i].ID != pairs[i].ID || !bytes.Equal(got[i].Value, pairs[i].Value) {
-						fs = append(fs, vf.F("ntlm.CreateAuthenticateMessage", "v2-blob-target-info-differs", "pair %d", i))
-						break
-					}
-				}
+			if i := missingPair(got, pairs); i >= 0 {
+				fs = append(fs, vf.F("ntlm.CreateAuthenticateMessage", "v2-blob-target-info-differs", "pair %d of the challenge (id %d, %d bytes) not found in order among the %d pairs of the blob", i, pairs[i].ID, len(pairs[i].Value), len(got)))
 			}
 		}
 	}
-	// LMv2: HMAC_MD5(NTOWFv2, server challenge || client challenge) || client challenge
+	// LmChallengeResponse: LMv2 = HMAC_MD5(NTOWFv2, server challenge || client challenge) || client challenge,
+	// or Z(24) (MS-NLMP 3.1.5.1.2 prescribes it when the target info carries MsvAvTimestamp; a server that
+	// finds a verifying NTLMv2 response does not look at it). Anything else is a response that fails.
 	if len(a.LM.Data) != 24 {
 		fs = append(fs, vf.F("ntlm.CreateAuthenticateMessage", "v2-lm-response-length", "%d bytes, want 24", len(a.LM.Data)))
-	} else {
+	} else if !bytes.Equal(a.LM.Data, make([]byte, 24)) {
 		key := refcrypto.NTOWFv2(nt, user, domain)
 		if want := refcrypto.HMACMD5(key, c.ServerChallenge, a.LM.Data[16:]); !bytes.Equal(want, a.LM.Data[:16]) {
-			fs = append(fs, vf.F("ntlm.CreateAuthenticateMessage", "v2-lm-proof-mismatch", "got %x want %x", a.LM.Data[:16], want))
+			fs = append(fs, vf.F("ntlm.CreateAuthenticateMessage", "v2-lm-proof-mismatch", "got %x want %x (or 24 zero bytes)", a.LM.Data[:16], want))
 		}
 	}
-	// identity carried in the message is the supplied one (domain/workstation modulo case)
-	if user != c.User {
+	// identity carried in the message is the supplied one, modulo letter case (NTOWFv2 upper-cases the user
+	// name, and the property does not say in which case the field carries it; C08 compares it exactly)
+	if alpha.UpperString(user) != alpha.UpperString(c.User) {
 		fs = append(fs, vf.F("ntlm.CreateAuthenticateMessage", "user-name-not-as-supplied", "got %q want %q", user, c.User))
 	}
 	if alpha.UpperString(domain) != alpha.UpperString(c.Domain) {
 		fs = append(fs, vf.F("ntlm.CreateAuthenticateMessage", "domain-name-not-as-supplied", "got %q want %q", domain, c.Domain))
 	}
 	return fs
+}
+
+// missingPair looks for want as a sub-sequence of got (ids and values equal, order kept) and returns the index
+// of the first pair of want that has no place in it, or -1.
+func missingPair(got, want []nlmp.AvPair) int {
+	j := 0
+	for i, w := range want {
+		for j < len(got) && !(got[j].ID == w.ID && bytes.Equal(got[j].Value, w.Value)) {
+			j++
+		}
+		if j == len(got) {
+			return i
+		}
+		j++
+	}
+	return -1
 }
 
 func genAuth(t *rapid.T, v2 bool) authCase {
